@@ -65,6 +65,27 @@ def scenarios():
                                                            "codes": sorted(c.grpc_status_code.name for c in m.retry.retryable_exceptions)}
                 if got_retry != want_retry or m.timeout != want_timeout:
                     failures.append({"config": ci, "method": f"{sname}.{mname}", "got": [got_retry, m.timeout], "want": [want_retry, want_timeout]})
+    # services declared in packages below the API's root package (a types-only root file, services one and two levels down): the entry is found by the
+    # service's own proto package
+    for sub in ("services", "admin.internal"):
+        pkg = "acme.lab.v1." + sub
+        root = G.new_file("acme/lab/v1/common.proto", "acme.lab.v1")
+        G.add_message(root, "Req", [G.F("name", 1, G.T.TYPE_STRING)])
+        G.add_message(root, "Resp", [G.F("x", 1, G.T.TYPE_STRING)])
+        deep = G.new_file("acme/lab/v1/%s/deep.proto" % sub.replace(".", "/"), pkg, deps=G.STD_DEPS + ["acme/lab/v1/common.proto"])
+        svc = G.add_service(deep, "Deep")
+        for mname in ("Alpha", "Beta"):
+            G.add_method(svc, mname, ".acme.lab.v1.Req", ".acme.lab.v1.Resp", http=("get", "/v1/{name=deep/%s/*}" % mname.lower()))
+        cfg = {"methodConfig": [{"name": [{"service": pkg + ".Deep", "method": "Alpha"}], "timeout": "7s", "retryPolicy": RP2},
+                                {"name": [{"service": "acme.lab.v1.Deep", "method": "Beta"}], "timeout": "9s"}]}          # the second names no service of the API
+        api, opts = G.build_api([root, deep], "autogen-snippets=false", retry_config=cfg)
+        cases += 2
+        ms = api.services[pkg + ".Deep"].methods
+        a, b = ms["Alpha"], ms["Beta"]
+        if a.timeout != 7.0 or a.retry is None or sorted(c.grpc_status_code.name for c in a.retry.retryable_exceptions) != ["ABORTED"] or a.retry.initial_backoff != 1.5:
+            failures.append({"layout": pkg, "method": "Deep.Alpha", "got": [repr(a.retry), a.timeout], "want": "RP2 with timeout 7.0"})
+        if b.timeout is not None or b.retry is not None:
+            failures.append({"layout": pkg, "method": "Deep.Beta (named under another package)", "got": [repr(b.retry), b.timeout], "want": [None, None]})
     # the generated transport: defaults as api-core objects
     cfg = CONFIGS[2]
     cfg2 = CONFIGS[1]
@@ -77,7 +98,58 @@ def scenarios():
             continue
         failures += json.loads(p.stdout.rsplit("@@", 1)[1])
         cases += 8
+    from vf.genlab import run_isolated
+    failures += run_isolated("props.C09_native", "rest_deadlines")
+    cases += 6
     return {"cases": cases, "failures": failures}
+
+
+def rest_deadlines():
+    """REST transport: the entry's timeout (or the per-call one) is the timeout of the HTTP request, for a body-less and a body-carrying method."""
+    import importlib
+    from vf import genlab as G
+    from google.auth.credentials import AnonymousCredentials
+    fd = files()[0]
+    G.add_message(fd, "Out", [G.F("x", 1, G.T.TYPE_STRING)])
+    svc = fd.service[0]
+    G.add_method(svc, "Post", ".acme.lab.v1.Req", ".acme.lab.v1.Resp", http=("post", "/v1/{name=lab/post/*}"), body="*")
+    cfg = {"methodConfig": [{"name": [N("Lab", "Alpha"), N("Lab", "Post")], "timeout": "30s"}]}
+    api, res = G.generate([fd], "autogen-snippets=false,transport=grpc+rest", retry_config=cfg)
+    failures = []
+    with G.materialised(res):
+        lab_v1 = importlib.import_module("acme.lab_v1")
+        tr_mod = importlib.import_module("acme.lab_v1.services.lab.transports.rest")
+        seen = []
+
+        class Reply:
+            status_code = 200
+            content = b"{}"
+            headers = {}
+            request = None
+
+        class Session:
+            def _do(self, verb, url, timeout=None, **kw):
+                seen.append((verb, url, timeout))
+                return Reply()
+
+            def close(self):
+                pass
+        for v in ("get", "post", "put", "patch", "delete"):
+            setattr(Session, v, (lambda vv: lambda self, url, **kw: self._do(vv, url, **kw))(v))
+        tr_mod.AuthorizedSession = lambda *a, **k: Session()
+        client = lab_v1.LabClient(transport=tr_mod.LabRestTransport(credentials=AnonymousCredentials()))
+        for pyname, kwargs, want in (("alpha", {}, 30.0), ("post", {}, 30.0), ("alpha", {"timeout": 4.5}, 4.5), ("post", {"timeout": 4.5}, 4.5),
+                                     ("beta", {}, None), ("beta", {"timeout": 2.0}, 2.0)):
+            del seen[:]
+            try:
+                getattr(client, pyname)(request={"name": f"lab/{pyname}/1"}, **kwargs)
+            except Exception as e:      # noqa
+                failures.append({"transport": "rest", "call": f"{pyname}({kwargs})", "error": repr(e)[:200]})
+                continue
+            got = seen[0][2] if seen else "nothing sent"
+            if got != want:
+                failures.append({"transport": "rest", "call": f"{pyname}({kwargs})", "what": "timeout of the HTTP request", "got": got, "want": want})
+    return failures
 
 
 def transport_defaults(ci):
